@@ -200,3 +200,25 @@ def judge_fault_error(err, what):
     OSError itself, an exception chained to it, a parser error about the short read): nothing to
     report - only a tree that is RETURNED under the fault is judged by the callers"""
     return []
+
+
+@contextlib.contextmanager
+def open_in_mode(files, images, mode, **opts):
+    """the product opened in one of three ways: 'plain' (memory://, uncached), 'creating' (local
+    path; the judged tree is the one returned by the open that also writes the index cache),
+    'cached' (local path; a first open writes the cache, the judged one is served from it).
+    Yields (tree, error); the user cache dir is cleaned afterwards."""
+    opts = dict(opts)
+    opts.pop("use_cache", None)
+    with harness.Materialised(files, "memory" if mode == "plain" else "local") as prod:
+        try:
+            if mode == "plain":
+                yield harness.guard(harness.open_tree, prod.url, use_cache=False, **opts)
+            else:
+                tree, err = harness.guard(harness.open_tree, prod.url, use_cache=False, create_cache=True, **opts)
+                if err is None and mode == "cached":
+                    tree, err = harness.guard(harness.open_tree, prod.url, use_cache=True, **opts)
+                yield tree, err
+        finally:
+            if mode != "plain":
+                drop_user_cache(prod.url, images)
